@@ -8,6 +8,7 @@
 //@harness limits_are_declared_range serves=C14 kind=complete fn=RecordDataType::limits note="all data types: limits = (declared min, declared max) in the value kind of the type"
 //@harness default_color_intensity_limits serves=C14 kind=complete fn=ColorLimits::from_record_types note="each colour channel / intensity gets the limits of ITS OWN record type (three distinguishable integer types, symbolic ranges)"
 //@harness max_packet_points_total_and_fits serves=C10,C01 kind=bounded fn=get_max_packet_points note="BOUNDED in prototype length (<= 3 records; complete in the ranges): no panic, >= 1 point, and a packet of that many points fits the 16-bit length field"
+//@harness validate_groups_reject_incomplete serves=C10 kind=bounded fn=validate_cartesian/validate_spherical/validate_color note="BOUNDED to prototypes of exactly 3 records (names symbolic over the Cartesian / spherical / colour groups, duplicates included): accepted iff the three DISTINCT names of a group are all present or all absent"
 //@module
     fn fmt_stub(_a: std::fmt::Arguments<'_>) -> String { String::new() }
     fn same_f64(a: Option<f64>, b: Option<f64>) -> bool {
@@ -169,4 +170,39 @@
         // a full packet: header + n sizes + ceil(bits per stream) never exceeds the u16 length field
         let payload = (pts * bits + 7) / 8 + n;
         assert!(6 + 2 * n + payload + 3 <= u16::MAX as usize);
+    }
+
+    fn pick(names: [RecordName; 4]) -> RecordName {
+        let k: u8 = kani::any();
+        kani::assume(k < 4);
+        names[k as usize].clone()
+    }
+    fn has(p: &[Record], n: RecordName) -> bool { let mut i = 0; let mut r = false; while i < p.len() { if p[i].name == n { r = true; } i += 1; } r }
+
+    #[kani::proof]
+    #[kani::unwind(5)]
+    #[kani::stub(alloc::fmt::format, fmt_stub)]
+    fn validate_groups_reject_incomplete() {
+        let dt = RecordDataType::Double { min: None, max: None };
+        // Cartesian group: three records with names drawn from {X, Y, Z, Intensity}
+        let names = [RecordName::CartesianX, RecordName::CartesianY, RecordName::CartesianZ, RecordName::Intensity];
+        let p = vec![Record { name: pick(names.clone()), data_type: dt.clone() }, Record { name: pick(names.clone()), data_type: dt.clone() }, Record { name: pick(names.clone()), data_type: dt.clone() }];
+        let cnt = has(&p, RecordName::CartesianX) as u8 + has(&p, RecordName::CartesianY) as u8 + has(&p, RecordName::CartesianZ) as u8;
+        let r = validate_cartesian(&p);
+        assert!(r.is_ok() == (cnt == 0 || cnt == 3));
+        std::mem::forget(r);
+        // spherical group
+        let names = [RecordName::SphericalAzimuth, RecordName::SphericalElevation, RecordName::SphericalRange, RecordName::Intensity];
+        let p = vec![Record { name: pick(names.clone()), data_type: dt.clone() }, Record { name: pick(names.clone()), data_type: dt.clone() }, Record { name: pick(names.clone()), data_type: dt.clone() }];
+        let cnt = has(&p, RecordName::SphericalAzimuth) as u8 + has(&p, RecordName::SphericalElevation) as u8 + has(&p, RecordName::SphericalRange) as u8;
+        let r = validate_spherical(&p);
+        assert!(r.is_ok() == (cnt == 0 || cnt == 3));
+        std::mem::forget(r);
+        // colour group
+        let names = [RecordName::ColorRed, RecordName::ColorGreen, RecordName::ColorBlue, RecordName::Intensity];
+        let p = vec![Record { name: pick(names.clone()), data_type: dt.clone() }, Record { name: pick(names.clone()), data_type: dt.clone() }, Record { name: pick(names.clone()), data_type: dt.clone() }];
+        let cnt = has(&p, RecordName::ColorRed) as u8 + has(&p, RecordName::ColorGreen) as u8 + has(&p, RecordName::ColorBlue) as u8;
+        let r = validate_color(&p);
+        assert!(r.is_ok() == (cnt == 0 || cnt == 3));
+        std::mem::forget(r);
     }
